@@ -147,7 +147,19 @@ def gen_case(rng, big=False, name=None):
     b = gen_bandwidth(rng, name, f)
     s = gen_spectrum(rng, scls, nrows, f)
     fcs = gen_fcs(rng, fcls, f)
-    return dict(name=name, n=n, dt=dt, nrows=nrows, scls=scls, fcls=fcls, b=b), f, s, fcs
+    # the centre frequencies need not be ascending: descending, shuffled, two neighbours swapped, repeated values
+    order = str(rng.choice(["ascending", "ascending", "descending", "shuffled", "swapped-neighbours", "with-repeats"]))
+    if order == "descending":
+        fcs = fcs[::-1].copy()
+    elif order == "shuffled":
+        fcs = fcs[rng.permutation(fcs.size)]
+    elif order == "swapped-neighbours" and fcs.size >= 2:
+        i = int(rng.integers(0, fcs.size - 1))
+        fcs = fcs.copy()
+        fcs[i], fcs[i + 1] = fcs[i + 1], fcs[i]
+    elif order == "with-repeats" and fcs.size >= 2:
+        fcs = np.concatenate([fcs, fcs[rng.integers(0, fcs.size, 3)]])
+    return dict(name=name, n=n, dt=dt, nrows=nrows, scls=scls, fcls=fcls + "/" + order, b=b), f, s, np.ascontiguousarray(fcs)
 
 
 # -- monitors -------------------------------------------------------------------------------
